@@ -630,14 +630,17 @@ impl Datamodel for RFsmExpressionDatamodel {
                         }
                     }
                     _ => {
+                        // W3C: terminate the <foreach> and the block that contains it.
                         self.log("Resulting value is not a supported collection.");
                         self.internal_error_execution();
+                        return false;
                     }
                 }
                 true
             }
             Err(e) => {
                 self.log(&e.to_string());
+                self.internal_error_execution();
                 false
             }
         }
